@@ -327,6 +327,7 @@ class Observer:
                 else:
                     r = {'t': 'PP', 'sid': f['sid'], 'pid': f['promised'], 'h': h, 'pad': f['pad']}
                 r['_sizes'] = sizes
+                r['_bl'] = len(block)
                 out.append(r)
                 i = j + 1
             else:
